@@ -14,13 +14,14 @@ from .poolfam import PoolFacts, queue_call
 
 
 def run(prog: Program, rep: Report):
-    pf = PoolFacts(prog)
+    from .poolfam import pool_facts
+    pf = pool_facts(prog, rep, None)
     wrun = prog.method(pf.worker, "run")
-    r1_r2_begin_end(prog, rep, pf, wrun)
-    r3_ready(prog, rep, pf, wrun)
-    r4_quota(prog, rep, pf, wrun)
-    r5_exit(prog, rep, pf)
-    r6_replaced_joined(prog, rep, pf)
+    rep.attempt(lambda: r1_r2_begin_end(prog, rep, pf, wrun))
+    rep.attempt(lambda: r3_ready(prog, rep, pf, wrun))
+    rep.attempt(lambda: r4_quota(prog, rep, pf, wrun))
+    rep.attempt(lambda: r5_exit(prog, rep, pf))
+    rep.attempt(lambda: r6_replaced_joined(prog, rep, pf))
 
 
 def _self_calls(f: Func, name: str) -> List[ast.Call]:
@@ -353,3 +354,44 @@ def r6_replaced_joined(prog, rep: Report, pf: PoolFacts):
               "the retired worker is dropped from self.procs without being joined: " + ("; ".join(joins) or "no join() in the replace loop"),
               scenario="quota 1 and a worker whose end() takes 3 s: after the with block that worker is still running (nobody "
                        "joined it: __exit__ only knows its successor)")
+    # the replace thread itself is waited for without bound: the pool's __exit__ runs after the consumer's `with <replace thread>`
+    # was left; if stop() gives up after a timeout, the thread can still start a successor that nobody joins
+    stop = prog.resolve(th, "stop")
+    chain = []
+    seen = set()
+    k = stop
+    while k is not None and k.qual not in seen and not getattr(k.cls, "is_external", False):
+        seen.add(k.qual)
+        chain.append(k)
+        nxt = None
+        for c in calls_in(k.node):
+            if isinstance(c.func, ast.Attribute) and c.func.attr == "stop" and isinstance(c.func.value, ast.Call) \
+                    and src(c.func.value.func) == "super":
+                nxt = prog.resolve(th, "stop", after=k.cls)
+        k = nxt
+    joins_ = [(g, c) for g in chain for c in calls_in(g.node) if isinstance(c.func, ast.Attribute) and c.func.attr == "join"
+              and isinstance(c.func.value, ast.Name) and c.func.value.id == g.self_name]
+    if not chain:
+        rep.unrec("C04.R6", run_, "thread-joined", "stop() of the replace thread not found")
+    elif not joins_:
+        rep.unrec("C04.R6", chain[0], "thread-joined", "stop() of the replace thread does not join the thread itself")
+    else:
+        bounded = []
+        for g, c in joins_:
+            t = c.args[0] if c.args else next((kw.value for kw in c.keywords if kw.arg == "timeout"), None)
+            if isinstance(t, ast.Name) and t.id in g.params:
+                a_ = g.node.args
+                pos_ = a_.posonlyargs + a_.args
+                dfl = dict(zip([x.arg for x in pos_[len(pos_) - len(a_.defaults):]], a_.defaults))
+                d0 = dfl.get(t.id)
+                if isinstance(d0, ast.Constant) and d0.value is None:
+                    continue                  # join(timeout) with timeout=None by default: unbounded unless a caller asks otherwise
+            if t is not None and not (isinstance(t, ast.Constant) and t.value is None):
+                bounded.append((g, c, t))
+        rep.fn(chain[0])
+        rep.check("C04.R6", chain[0], "thread-joined", not bounded, "stop() waits for the replace thread without a timeout",
+                  (f"`{src(bounded[0][1])}` in {bounded[0][0].cls.name}.stop gives up after a timeout: the replace thread may still be "
+                   "replacing a worker when the pool context is left, and the successor it starts is joined by nobody") if bounded else "",
+                  scenario="quota used up by the last chunk, slow end() of the retired worker: __exit__ joins what is in procs, then "
+                           "the replace thread starts a new worker that is left running",
+                  line=bounded[0][1].lineno if bounded else None)
